@@ -422,7 +422,9 @@ def _judge(p, cfg, devs, ex, info, dev, threads):
     for v in dev.params:
         exp_vals.setdefault(v.group, {})[v.name] = str(v.value)
     if info.get('values') != exp_vals:
-        viol('cache_differs_from_device', 'Param.values %r, device %r' % (info.get('values'), exp_vals))
+        txl = [(e[2], e[3]) for e in ev if e[1] == 'tx']
+        retrans = any(a == b for a, b in zip(txl, txl[1:]))
+        viol('cache_differs_from_device:%s' % ('after_retransmission' if retrans else 'no_retransmission'), 'Param.values %r, device %r' % (info.get('values'), exp_vals))
     if info.get('wait_lock') or info.get('queue_len') or not all(info.get('users_done', [])):
         viol('not_quiescent', 'wait_lock held=%r, queued requests=%r, user threads done=%r' % (
             info.get('wait_lock'), info.get('queue_len'), info.get('users_done')))
